@@ -14,8 +14,10 @@ def behaviours():
         for req in (True, False):
             for f in FACTORS:
                 out.append({"ckpt": ck, "proc": "ok", "handler": "none", "required": req, "factor": f})
+            out.append({"ckpt": ck, "proc": "none", "handler": "none", "required": req, "factor": 1})       # a validator stage: completes, returns None
             for h in ("none", "recover", "raise"):
-                out.append({"ckpt": ck, "proc": "raise", "handler": h, "required": req, "factor": 1})
+                for f in (1, 2):                                                                            # a raising stage carries a factor too
+                    out.append({"ckpt": ck, "proc": "raise", "handler": h, "required": req, "factor": f})
     return out
 
 
@@ -30,22 +32,29 @@ def plans(n, rng=None, sample=None):
             yield {"halt": rng.random() < 0.5, "maxamp": MAXAMP, "stages": [rng.choice(B) for _ in range(n)]}
 
 
+def enc(sig):
+    return [[0, "none"]] if sig is None else [list(x) for x in sig]
+
+
 def run_plan(cas, p):
     log = []
     c = cas.Cascade("t", max_amplification=float(p["maxamp"]), halt_on_failure=p["halt"], silent=True)
     for i, b in enumerate(p["stages"], 1):
         def ck(sig, i=i, b=b):
-            log.append([i, "ckpt", [list(x) for x in sig], b["ckpt"], []])
+            log.append([i, "ckpt", enc(sig), b["ckpt"], []])
             if b["ckpt"] == "raise":
                 raise RuntimeError("gate failure")
             return b["ckpt"] == "pass"
 
         def proc(sig, i=i, b=b):
             if b["proc"] == "raise":
-                log.append([i, "proc", [list(x) for x in sig], "raise", []])
+                log.append([i, "proc", enc(sig), "raise", []])
                 raise RuntimeError("processor failure")
-            out = tuple(sig) + ((i, "proc"),)
-            log.append([i, "proc", [list(x) for x in sig], "ok", [list(x) for x in out]])
+            if b["proc"] == "none":
+                log.append([i, "proc", enc(sig), "ok", enc(None)])
+                return None
+            out = tuple(tuple(x) for x in enc(sig)) + ((i, "proc"),)
+            log.append([i, "proc", enc(sig), "ok", [list(x) for x in out]])
             return out
 
         def handler(e, i=i, b=b):
